@@ -119,6 +119,14 @@ def boundary_cases():
         out.append(("bytes", bytes(range(256)) * (n // 256) + b"\x00" * (n % 256), {"long_value", "boundary_bytes"}))
     out.append(({"type": "record", "name": "Tail", "fields": [{"name": "n", "type": "long"}, {"name": "note", "type": "string"}]},
                 {"n": 5, "note": "\u00e9" * 40000}, {"long_value"}))
+    # an enum wide enough for two-byte positions, followed by more data on the stream
+    big_enum = {"type": "enum", "name": "Wide", "symbols": ["S%d" % i for i in range(200)]}
+    for pos in (0, 62, 63, 64, 65, 127, 128, 129, 199):
+        out.append((big_enum, "S%d" % pos, {"wide_enum"}))
+        out.append(({"type": "record", "name": "WE", "fields": [{"name": "e", "type": big_enum}, {"name": "after", "type": "string"},
+                                                                {"name": "es", "type": {"type": "array", "items": "Wide"}}]},
+                    {"e": "S%d" % pos, "after": "tail", "es": ["S%d" % pos, "S0", "S199"]}, {"wide_enum"}))
+        out.append((["null", big_enum, "string"], ("Wide", "S%d" % pos), {"wide_enum"}))
     # string defaults of unions: the first branch a JSON string fits decides what the string means
     F2 = {"type": "fixed", "name": "F2", "size": 2}
     EN = {"type": "enum", "name": "EN", "symbols": ["ab", "cd"]}
